@@ -457,6 +457,13 @@ const nOrderings = 22
 // continuation: deliver everything pending among correct operators (ordering k), and when nothing
 // is pending and someone is undecided, fire the timeouts of all undecided correct operators.
 // Returns (all decided, timeout rounds used).
+// contDeliveries: deliveries made in the continuations of the current run, all orderings together. A run
+// whose continuations need more than the cap (large committees whose every proposal is refused: each
+// round-change then costs hundreds of signature checks) is discarded instead of running for minutes.
+var contDeliveries int
+
+const contDeliveryCap = 9000
+
 func (w *world) continuation(k int, shuffle *sim.Rand) (bool, int) {
 	// timeout policy: real round deadlines are absolute (measured from the duty's slot start), so an
 	// operator in a lower round reaches its deadline first: the first half of the orderings fire only the operators in
@@ -486,7 +493,7 @@ func (w *world) continuation(k int, shuffle *sim.Rand) (bool, int) {
 	if hi > lo {
 		budget += int(hi - lo)
 	}
-	for iter := 0; iter < 20000; iter++ {
+	for iter := 0; iter < 4000; iter++ {
 		pl := w.pendingList()
 		// Byzantine operators went silent: their undelivered messages are never delivered
 		var cand []pend
@@ -498,6 +505,9 @@ func (w *world) continuation(k int, shuffle *sim.Rand) (bool, int) {
 		if len(cand) > 0 {
 			w.order(cand, k, shuffle)
 			p := cand[0]
+			if contDeliveries++; contDeliveries > contDeliveryCap {
+				return false, -1 // the run's total continuation work is used up (counted, not timed)
+			}
 			w.deliver(w.pool[p.msg], w.nodes[p.to])
 			continue
 		}
@@ -534,6 +544,7 @@ func (w *world) continuation(k int, shuffle *sim.Rand) (bool, int) {
 			return false, rounds
 		}
 	}
+	w.d.Probe("diag-continuation-delivery-bound-reached")
 	return false, rounds
 }
 
@@ -609,6 +620,7 @@ func runC07(t *testing.T, d *sim.D) {
 	prefix := append([]sim.Step(nil), d.Steps...)
 	var tried []string
 	var last *world
+	contDeliveries = 0
 	for k := 0; k < nOrderings; k++ {
 		cw := w
 		if k > 0 {
@@ -629,6 +641,10 @@ func runC07(t *testing.T, d *sim.D) {
 		cw.inContinuation = true
 		last = cw
 		ok, rounds := cw.continuation(k, sim.NewRand(d.Seed^uint64(k)*7919))
+		if rounds < 0 {
+			d.Discard = "continuation work cap reached"
+			return
+		}
 		tried = append(tried, fmt.Sprintf("ordering%d:decided=%v,rounds=%d", k, ok, rounds))
 		if ok {
 			d.Logf("continuation ordering=%d decided after %d timeout rounds", k, rounds)
